@@ -66,10 +66,10 @@ async fn fault_enum() {
 				t.set(k.to_vec(), v.clone())?;
 				t.commit().await
 			};
-			let r = match tokio::time::timeout(std::time::Duration::from_secs(20), fut).await {
+			let r = match tokio::time::timeout(std::time::Duration::from_secs(90), fut).await {
 				Ok(r) => r,
 				Err(_) => {
-					bad = Some(format!("commit #{i} did not finish within 20 s after the injected fault (store hangs)"));
+					bad = Some(format!("commit #{i} did not finish within 90 s after the injected fault (store hangs)"));
 					break;
 				}
 			};
